@@ -80,7 +80,11 @@ def refs_paired(r, F):
     for b in em.calls_to(INC):
         sl = backslice(em, b.term.args[1], "dep")
         lens = [t for _, t in sl.calls if t.callee and t.callee.endswith("Vec::<T, A>::len")]
-        plus1 = any(s.rv.op in ("AddWithOverflow", "Add") and any(o.is_const() and o.const_val() == 1 for o in s.rv.ops) for _, s in sl.binops if s.rv.k == "bin")
+        from sa import affine as _aff
+        form = _aff.affine(em, b.term.args[1], depth=1)
+        lenlocals = {"_%d" % bb_.term.dest.local for bb_ in em.calls_to(r"Vec::<T, A>::len$")}
+        # exactly  len(notifiers) + 1  (affine normal form: one length term with coefficient 1, constant 1)
+        plus1 = form.get("1") == 1 and len([k for k in form if k != "1"]) == 1 and all(v == 1 and k in lenlocals for k, v in form.items() if k != "1")
         on_notifiers = any(4 in backslice(em, t.args[0], "prov").args for t in lens)
         recv = backslice(em, b.term.args[0], "prov")
         r.require(bool(lens) and plus1 and on_notifiers and 2 in recv.args, em, "inc_refs(notifiers.len()+1)",
